@@ -26,6 +26,32 @@ CLAIMED = {
          "DESIGN.md 3 C18"),
 }
 
+CLAIMED.update({
+ "C01": ("Coq proofs of the signing equations of all five protocols over an abstract group + real sessions judged by the extracted Coq reference verifier (textbook secp256k1/ECDSA/BIP-340)",
+         "C01_cmp_sign_correct, C01_presign_online_correct, C01_frost_sign_correct(+taproot), C01_doerner_sign_correct, sum-order irrelevance (Go map iteration) are proved for any signer list, any hash outputs, MtA/OT outputs constrained by their relations (proved in C12/C13). Real signing sessions of every protocol run through the real handlers for every signer subset |S|>t (n<=4), digests of 1..80 bytes, several delivery orders; every returned signature is verified by the extracted reference (independent of the library's Verify), all parties must return the same signature and complete.",
+         "secp256k1 group laws and primality of its constants are premises of the abstract theorems; the reference verifier is tied to decred/secp256k1 only by differential testing (Proofs/RefVectors.v + REF tests). ZK completeness at real sizes is C10.",
+         "DESIGN.md 3 C01"),
+ "C02": ("Coq proofs of Lagrange interpolation / VSS soundness / every-subset reconstruction over an abstract field + real keygens judged by the extracted reference for every (t+1)-subset",
+         "lagrange_interp (root counting), lagrange_code_formula (the code's numerator/denominator form), every_subset_reconstructs, vss_check_sound (adversarial dealers), table_is_function_of_broadcasts, Doerner additive sharing, Taproot negation are proved for all n, t, subsets. Real FROST/FROST-Taproot (n<=4 quick, n<=5 thorough, every t), Doerner and CMP keygens under several schedules and identifier sets are checked by the reference: same key/table everywhere, share*G = table entry, every (t+1)-subset of shares and of table entries reconstructs the group key.",
+         "Field axioms for Z_q are proved from `prime q` (premise for the secp256k1 order). Curve group laws are premises.",
+         "DESIGN.md 3 C02"),
+ "C08": ("Coq induction over refresh/derive/restore histories (GoodSharing invariant) + real histories checked step by step by the reference",
+         "C08_history_preserves_sharing (induction over arbitrary histories), refresh_zero_constant_preserves_key, share_changed_iff, mixed_epoch_reconstruct_iff, mixed_defect_nondegenerate, threshold0_shares_fixed, stale_frost_share_rejected_iff are proved. Real histories keygen;(refresh|restore|derive|sign)* for FROST, FROST-Taproot, CMP, Doerner: after each step the reference checks consistency, unchanged group key, changed shares, failure of every mixed-epoch reconstruction, signing with refreshed material, and that a session with one stale signer yields no signature.",
+         "Known finding (listed): t=0 shares cannot change. Pre-refresh material is snapshotted by serialisation because Refresh updates the scalar objects of the config it is given.",
+         "DESIGN.md 3 C08"),
+ "C14": ("Coq proofs that derivation preserves the sharing (incl. Taproot renormalisation, iterated paths) + Gallina BIP-32 CKDpub (own HMAC-SHA512) compared with every party's derived key and chain code",
+         "C14_derive_preserves_sharing, C14_derive_iter, C14_derive_interleaved_with_refresh, C14_chain_key_xor_agree proved; the reference ckd_pub is validated against BIP-32 vector 1 / RFC 4231. After real keygens all chain keys are equal and 32 bytes; for paths of length <=3 over boundary and random indices every party's child public key and chain code equal the reference's, the derived material is a consistent sharing, and signing with it verifies under the reference verifier (CMP, FROST, FROST-Taproot, Doerner).",
+         "SHA-512/HMAC in Gallina validated by vectors, not proved against the FIPS text.",
+         "DESIGN.md 3 C14"),
+})
+
+CLAIMED.update({
+ "C06": ("Coq proof of no_split over the n-handler system model (view-hash collision as explicit disjunct) + two-faced-party runs on real handlers",
+         "C06_no_split: for any n, any well-formed shape, any schedule with arbitrary injections by the equivocator, two honest finishers hold the same fingerprint for every party's broadcast in every non-final broadcast round, or a collision of the view hash is exhibited; C06_last_round_not_covered states the limit. Real handlers: the equivocator is two honest instances diverging at round k, wired to the two groups of every 2-partition of the honest parties (n=3,4), FROST keygen/sign (+CMP sign): no cross-group pair completes, completers hold byte-identical views, and view digest equality is checked to coincide with view equality across all handlers.",
+         "Collision resistance of BLAKE3 appears only as the explicit disjunct. The system model expands to-all messages per recipient and drains the channel after every Accept.",
+         "DESIGN.md 3 C06"),
+})
+
 # properties whose check is complete enough to be claimed in MANIFEST.json right now
-READY = {"C19", "C09", "C18"}
+READY = {"C19", "C09", "C18", "C07", "C17", "C01", "C02", "C08", "C14", "C06"}
 CLAIMED = {k: v for k, v in CLAIMED.items() if k in READY}
